@@ -1,0 +1,16 @@
+//go:build verif
+
+// Contracts for package nonprod (signer), checked by /verif (govc). Comment-only; compiled only under -tags verif.
+package nonprod
+
+// C03 (what the signer produces verifies, after any history): the public key reported for a key version is computed
+// from the key stored under that name at the time of the call - nothing is remembered between calls (the method
+// writes nothing), so a key version that is generated again is never served a stale public key.
+//@ func (*Signer).PublicKey
+//@   requires s != nil
+//@   assigns[C03] nothing
+//@   ensures[C03] (err == nil) == has(s.Keys, keyVersionName)
+
+// (PEM encoding of an RSA public key: library code - asn1, math/big, pem - trusted to write only memory it allocates)
+//@ func RsaPublicKeyToPEM trusted
+//@   assigns nothing
